@@ -187,6 +187,17 @@ def r7_phase(repo, res):
             if not ok_p:
                 bad.append(f"{p}: recorded {r_!r}, read shows {sorted(shown.get(p, set()))}")
         extra = [p for p in rec if p not in want_pos]
+        # a sparse set of variant sites: records exactly at the sites the read spans, with an allele it shows there
+        sparse = {START + 1: 0, START + 3: 1, START + 4: 2, START + 8: 3}
+        try:
+            kind2, _, norm2, muts2, me2, _ = fold_parse_read(repo, cigar, seq, qual, phaseable=sparse)
+        except Unfoldable as e:
+            res.err("C06.R7", f"_parse_read outside folding language: {e}")
+            return
+        rec2 = me2.phases.get("r1", {})
+        want_keys = {p for p in want_pos if p in sparse and p not in inside_del}
+        if kind2 == "raise" or set(rec2) != want_keys or any(rec2[p] not in shown.get(p, set()) for p in rec2):
+            bad.append(f"variant sites {sorted(sparse)}: records {dict(rec2)}, expected records at {sorted(want_keys)} with alleles the read shows")
         res.ob("C06.R7", f, f, kind != "raise" and not bad and not extra,
                expected=f"op {name}: the fragment's phase record holds, for every variant site the read spans, an allele the read shows there (and nothing elsewhere)",
                found="ok" if not bad and not extra else "; ".join(bad[:3]) + (f"; records outside the read: {extra}" if extra else ""),
@@ -464,8 +475,8 @@ def r6(repo, res):
            key="out-of-gene-folding")
 
 
-def spec_pileup(cigar, seq, start=START):
-    """Independent CIGAR interpreter (reference is 'A' everywhere): (per-position list of kinds, insertions, final cursor)."""
+def spec_pileup(cigar, seq, start=START, ref=lambda i: "A"):
+    """Independent CIGAR interpreter (reference `ref`, 'A' everywhere by default): (per-position list of kinds, insertions, final cursor)."""
     per = collections.defaultdict(list)
     ins = []
     rp, qp = start, 0
@@ -473,7 +484,7 @@ def spec_pileup(cigar, seq, start=START):
         if op in (0, 7, 8):
             for i in range(n):
                 b = seq[qp + i]
-                per[rp + i].append("_" if b == "A" else f"A>{b}")
+                per[rp + i].append("_" if b == ref(rp + i) else f"{ref(rp + i)}>{b}")
             rp += n
             qp += n
         elif op == 1:
@@ -552,23 +563,53 @@ def r9_depth_conservation(repo, res):
     res.analysed(mk, cov_init, pr)
     S = START
     mapped = set(range(S + 4, S + 14)) - {S + 9}
-    multi = {S + 5: "AA>CT", S + 10: "A.A>G.T"}
-    reads = [
-        ("reference read over the window", S, [(0, 20)], "A" * 20),
-        ("deletion reaching into the mapped part", S + 2, [(0, 3), (2, 4), (0, 5)], "A" * 8),
-        ("deletion outside the mapped part", S, [(0, 1), (2, 2), (0, 6)], "A" * 7),
-        ("complete two-base substitution", S + 3, [(0, 8)], "AACTAAAA"),
-        ("second read with the complete two-base substitution", S + 4, [(0, 4)], "ACTA"),
-        ("second half of the two-base substitution only", S + 3, [(0, 8)], "AAATAAAA"),
-        ("half of the two-base substitution", S + 3, [(0, 8)], "AACAAAAA"),
-        ("substitution outside the mapped part", S, [(0, 4)], "CAAA"),
-        ("insertion", S + 4, [(0, 2), (1, 2), (0, 3)], "AAGGAAA"),
-        ("soft clip, = and X runs", S + 6, [(4, 2), (7, 2), (8, 1), (0, 2)], "TTAACAA"),
-        ("complete dotted substitution", S + 9, [(0, 5)], "AGATA"),
-        ("deletion beyond the mapped part", S + 12, [(0, 2), (2, 3), (0, 2)], "AAAA"),
-        ("substitution in the gap of the mapping", S + 8, [(0, 3)], "AGA"),
+    # a reference that is not uniform (a base read at the wrong position shows in the variant keys)
+    def ref(i):
+        return "ACGT"[(i * i + i // 3) % 4]
+
+    def alt(i, k=1):
+        return "ACGT"[("ACGT".index(ref(i)) + k) % 4]
+
+    class VarGene(GeneStub):
+        def __getitem__(self, i):
+            if isinstance(i, slice):
+                return "".join(self[j] for j in range(i.start, i.stop))
+            return ref(i) if self.lo <= i < self.hi else "N"
+
+    def mkseq(start, cigar, subs=None, ins="GGGG"):
+        subs, out, rp = subs or {}, [], start
+        for op, n in cigar:
+            if op in (0, 7, 8):
+                out += [alt(rp + i, subs[rp + i]) if rp + i in subs else ref(rp + i) for i in range(n)]
+                rp += n
+            elif op == 1:
+                out.append(ins[:n])
+            elif op == 2:
+                rp += n
+            elif op == 4:
+                out.append("T" * n)
+        return "".join(out)
+
+    sub = lambda p, k=1: f"{ref(p)}>{alt(p, k)}"  # noqa: E731
+    multi = {S + 5: f"{ref(S + 5)}{ref(S + 6)}>{alt(S + 5)}{alt(S + 6)}", S + 10: f"{ref(S + 10)}.{ref(S + 12)}>{alt(S + 10)}.{alt(S + 12)}"}
+    plan = [
+        ("reference read over the window", S, [(0, 20)], {}),
+        ("deletion reaching into the mapped part", S + 2, [(0, 3), (2, 4), (0, 5)], {}),
+        ("deletion outside the mapped part", S, [(0, 1), (2, 2), (0, 6)], {}),
+        ("complete two-base substitution", S + 3, [(0, 8)], {S + 5: 1, S + 6: 1}),
+        ("second read with the complete two-base substitution", S + 4, [(0, 4)], {S + 5: 1, S + 6: 1}),
+        ("second half of the two-base substitution only", S + 3, [(0, 8)], {S + 6: 1}),
+        ("half of the two-base substitution", S + 3, [(0, 8)], {S + 5: 1}),
+        ("another substitution at the first site of the two-base substitution", S + 4, [(0, 3)], {S + 5: 2}),
+        ("substitution outside the mapped part", S, [(0, 4)], {S: 1}),
+        ("insertion", S + 4, [(0, 2), (1, 2), (0, 3)], {}),
+        ("soft clip, = and X runs", S + 6, [(4, 2), (7, 2), (8, 1), (0, 2)], {S + 8: 1}),
+        ("complete dotted substitution", S + 9, [(0, 5)], {S + 10: 1, S + 12: 1}),
+        ("deletion beyond the mapped part", S + 12, [(0, 2), (2, 3), (0, 2)], {}),
+        ("substitution in the gap of the mapping", S + 8, [(0, 3)], {S + 9: 1}),
     ]
-    gene = GeneStub(lo=S - 5, hi=S + 30, mapped=mapped)
+    reads = [(label, start, cigar, mkseq(start, cigar, subs)) for label, start, cigar, subs in plan]
+    gene = VarGene(lo=S - 5, hi=S + 30, mapped=mapped)
     me = Obj(phases={}, gene=gene, phaseable={}, _indel_sites_eqs={}, _indel_sites={}, _multi_sites=dict(multi), profile="P", _dump_cn={}, coverage=None)
     norm, muts = collections.defaultdict(list), collections.defaultdict(list)
     depth = collections.Counter()
@@ -598,7 +639,7 @@ def r9_depth_conservation(repo, res):
             if kind == "raise":
                 res.ob("C06.R9", pr, pr, False, expected=f"{label}: parsed", found=f"raises {val}", key="depth-conservation")
                 return
-            wper, wins, _ = spec_pileup(cigar, seq, start)
+            wper, wins, _ = spec_pileup(cigar, seq, start, ref)
             for p, ks in wper.items():
                 depth[p] += len(ks)
                 for k in ks:
@@ -620,7 +661,7 @@ def r9_depth_conservation(repo, res):
             if got != depth[p]:
                 bad.append(f"position {p}: depth read back {got}, {depth[p]} reads span it")
         # substitutions inside the mapped part; the complete multi-nucleotide reads are counted under their variant at its first position
-        complete = {(S + 5, "A>C"): 2, (S + 6, "A>T"): 2, (S + 10, "A>G"): 1, (S + 12, "A>T"): 1}
+        complete = {(S + 5, sub(S + 5)): 2, (S + 6, sub(S + 6)): 2, (S + 10, sub(S + 10)): 1, (S + 12, sub(S + 12)): 1}
         for (p, k), n in sorted(shows.items()):
             if k in ("_", "-") or p not in mapped:
                 continue
@@ -628,7 +669,7 @@ def r9_depth_conservation(repo, res):
             got = cm.call("coverage", inst, [Mu(p, k)], {})
             if got != want:
                 bad.append(f"substitution {k} at {p}: {got} observations, {want} reads show it (outside a complete multi-nucleotide substitution)")
-        for (p, k), n in (((S + 5, "AA>CT"), 2), ((S + 10, "A.A>G.T"), 1)):
+        for (p, k), n in (((S + 5, multi[S + 5]), 2), ((S + 10, multi[S + 10]), 1)):
             got = cm.call("coverage", inst, [Mu(p, k)], {})
             if got != n:
                 bad.append(f"multi-nucleotide substitution {k} at {p}: {got} observations, {n} reads show it completely")
@@ -693,6 +734,10 @@ def run(repo, res):
 
 
 MUTANTS = [
+    dict(name="R9 reference base of a substitution read one run-offset too early", module="sam", expect=["C06.R9", "C06.R2"],
+         old='                        mut = (start + i, f"{self.gene[start + i]}>{seq[s_start + i]}")', new='                        mut = (start + i, f"{self.gene[start - i]}>{seq[s_start + i]}")'),
+    dict(name="R7 variant-site test at the mirrored offset", module="sam", expect=["C06.R7"],
+         old="                        if start + i in self.phaseable:\n                            phase[start + i] = mut[1]", new="                        if start - i in self.phaseable:\n                            phase[start + i] = mut[1]"),
     dict(name="R5 insertion quality averaged over one base too many", module="sam", expect="C06.R5",
          old="                q = mean(qual[s_start : s_start + size]) if qual else prev_q", new="                q = mean(qual[s_start : s_start + size + 1]) if qual else prev_q"),
     dict(name="R9 RefSeq membership tested at the run start", module="sam", expect=["C06.R9", "C06.R6", "C06.R2"],
